@@ -9,7 +9,7 @@ def common_jobs(func_lex, func_gram, why, tier, known, gsub_quick=3389, gsub_tho
     q = tier == 'quick'
     M = os.path.join(ROOT, 'vf/ch/layout.py')
     ksub = {'KNOWN = set()': 'KNOWN = ' + repr(set(known))} if known else {}
-    nlexeme, nlex = (12, 2) if q else (8, 3)
+    nlexeme, nlex = (8, 2) if q else (8, 3)
     jobs = pipe.jobs_for('vf/ch/layout.py', func_lex, nlexeme, nlex, 300 if q else 2400, extra_subst=ksub, why=None)
     gsub = gsub_quick if q else gsub_thorough          # a 1/GSUB slice of the 338k grammar scripts, chosen by VERIF_SEED
     for oi in range(15):
@@ -29,7 +29,7 @@ def run(tier):
     from sqlparse.filters import others, reindent, aligned_indent
     chk.functions += [src_ref(sqlparse.format), src_ref(others.StripWhitespaceFilter), src_ref(others.SpacesAroundOperatorsFilter),
                       src_ref(reindent.ReindentFilter), src_ref(aligned_indent.AlignedIndentFilter), src_ref(others.SerializerUnicode)]
-    jobs, gsub, (nlexeme, nlex) = common_jobs('tokens', 'g_tokens', 'tokens_why', tier, [], gsub_quick=6779, gsub_thorough=499)
+    jobs, gsub, (nlexeme, nlex) = common_jobs('tokens', 'g_tokens', 'tokens_why', tier, [], gsub_quick=9973, gsub_thorough=499)
     for j in jobs:
         if j.func == 'tokens':
             def explain(mod, args):
@@ -37,6 +37,11 @@ def run(tier):
                 text = mod._text(a[0])
                 return dict(input=text, options=mod.OPTSETS[a[1]], why=mod.tokens_why(text, mod.OPTSETS[a[1]]))
             j.explain = explain
+    # integer option values as symbolic integers: wrap_after unbounded, indent_width 1..3
+    wparts = [3, 4, 5] if tier == 'quick' else list(range(12))
+    for wp in wparts:
+        jobs.insert(0, chrun.Job(os.path.join(ROOT, 'vf/ch/layout.py'), 'wrap', 300 if tier == 'quick' else 2400, subst={'PART = -1': f'PART = {wp}'},
+                              label=f'wrap[script {wp // 3}, indent_width {wp % 3 + 1}, wrap_after = ANY integer >= 0]', twin=(wp == 3)))
     res = chrun.run_jobs(jobs)
 
     def mk(r):
@@ -45,10 +50,11 @@ def run(tier):
             return dict(input=ex['input'], options=ex.get('options'), observed=ex.get('why'),
                         reproduce=f"cd /repo && /venv/bin/python -c \"import sqlparse; print(repr(sqlparse.format({ex['input']!r}, **{ex.get('options')})))\"")
         return {}
-    chrun.settle(chk, res, classify=lambda r: 'format:' + (((r.get('explain') or {}).get('why') or 'tokens').split(':')[0]), make_replay=mk)
+    chrun.settle(chk, res, classify=lambda r: 'format:wrap_after-value-changes-tokens-or-normal-form' if r['func'] == 'wrap' else 'format:' + (((r.get('explain') or {}).get('why') or 'tokens').split(':')[0]), make_replay=mk)
     chk.level = 'exploration'
     chk.bounds = dict(grammar=f'a 1/{gsub} slice (VERIF_SEED) of 544 320 scripts of the verification grammar (10 select lists x 6 FROM forms x 9 WHERE x 7 tails x 4 set operations x 4 whitespace fillers x 3 comment positions, every third with a second DML/DDL statement) x 15 option sets',
                       lexemes=f'{nlexeme} lexemes x {nlex} per script x 15 option sets',
+                      symbolic_options='wrap_after: EVERY integer >= 0 (symbolic), indent_width 1..3, comma_first, indent_columns on 1 (quick) / 4 (thorough) fixed scripts -- tokens preserved and reindent normal form',
                       outside='option combinations outside the 14 sets (of 2^9 x widths), indent_width/wrap_after values other than those in the sets; scripts outside the generator')
     chk.extra['rule'] = 'one evaluation = one CrossHair condition (a partition of the script x option space explored to exhaustion); distinct = conditions confirmed over all paths'
     chk.states = len(jobs)
